@@ -17,7 +17,7 @@ type ExpandOpt struct {
 	Key string
 	// Stop names callees that stay calls (functions the rules treat as a unit).
 	Stop func(*types.Func) bool
-	// Depth bounds nested expansion (default 4).
+	// Depth bounds nested expansion (default 8).
 	Depth int
 	// Defers makes deferred calls explicit before every return (see expandDefers).
 	Defers bool
@@ -48,7 +48,7 @@ func (p *Prog) Expand(f *Func, opt ExpandOpt) *Func {
 		return v
 	}
 	if opt.Depth == 0 {
-		opt.Depth = 4
+		opt.Depth = 8
 	}
 	x := &expander{p: p, top: f, info: f.Info(), opt: opt, closures: map[types.Object]*ast.FuncLit{}}
 	cl := &cloner{p: p, info: x.info, objs: map[types.Object]types.Object{}}
